@@ -26,7 +26,8 @@ def fut_models(done_tags):
 
     return [("*.done", lambda px, t, a, k, fr: is_done(px)),
             ("*.set_result", lambda px, t, a, k, fr: Outcomes(RAISE("InvalidStateError")) if is_done(px) else Outcomes(OK(None))),
-            ("*.set_exception", lambda px, t, a, k, fr: Outcomes(RAISE("InvalidStateError")) if is_done(px) else Outcomes(OK(None)))]
+            ("*.set_exception", lambda px, t, a, k, fr: Outcomes(RAISE("TypeError")) if (a and a[0] is None) else (
+                Outcomes(RAISE("InvalidStateError")) if is_done(px) else Outcomes(OK(None))))]
 
 
 def gw_cls(ctx):
@@ -224,11 +225,12 @@ def r10_1(ctx):
     a = repo.func(f"{ASH}:AshProtocol.connection_lost")
     ctx.fn(a)
     px = PX(repo, models=fut_models(set()), inline=inline_ash(stop=("_write_frame",)))
-    for p in px.explore(a, lambda: (self_obj(ash_cls(ctx), {"_transport": Sym("tr"), "_pending_data_frames": {1: fut("p1")}}), {"exc": Sym("exc")})):
+    for excv in (Sym("exc"), None):
+      for p in px.explore(a, lambda: (self_obj(ash_cls(ctx), {"_transport": Sym("tr"), "_pending_data_frames": {1: fut("p1")}}), {"exc": excv})):
         up = [e for e in p.events if e.kind == "call" and e.what == "self._ezsp_protocol.connection_lost"]
-        ok = (p.terminal == "return" and len(up) == 1 and up[0].args[:1] == (Sym("exc"),) and p.store["self"].get("_transport") is None
+        ok = (p.terminal == "return" and len(up) == 1 and up[0].args[:1] == (excv,) and p.store["self"].get("_transport") is None
               and "p1.set_exception" in [e.callee for e in completions(p)])
-        ctx.require(ok, "ash:connection_lost", f"AshProtocol.connection_lost: upward {[e.brief() for e in up]}, transport {p.store['self'].get('_transport')!r}, "
+        ctx.require(ok, "ash:connection_lost", f"AshProtocol.connection_lost({excv!r}) with a send in flight: {p.terminal} {p.value if p.terminal == 'raise' else ''}; upward {[e.brief() for e in up]}, transport {p.store['self'].get('_transport')!r}, "
                     f"released {[e.callee for e in completions(p)]}", func=a, trace=p.trace())
     e1 = repo.func(f"{ASH}:AshProtocol.eof_received")
     for p in PX(repo, inline=same_class()).explore(e1, lambda: (self_obj(ash_cls(ctx), {}), {})):
@@ -325,7 +327,7 @@ def _stack(ctx, callbacks=2, reset_waiter=False):
     repo = ctx.repo
     ns = repo.cls(ASH, "NcpState").members()
     tr = Obj(TypeRef("SerialTransport"), {}, tag="serial")
-    ash = Obj(ash_cls(ctx), {"_transport": tr, "_pending_data_frames": {}, "_ncp_state": ns["CONNECTED"], "_tx_seq": 3, "_rx_seq": 5, "_t_rx_ack": 1.6,
+    ash = Obj(ash_cls(ctx), {"_transport": tr, "_pending_data_frames": {2: fut("inflight")}, "_ncp_state": ns["CONNECTED"], "_tx_seq": 3, "_rx_seq": 5, "_t_rx_ack": 1.6,
                              "_ncp_reset_code": None}, tag="ash")
     gw = Obj(gw_cls(ctx), {"_transport": ash, "_reset_future": fut("rf") if reset_waiter else None, "_startup_reset_future": None, "_connection_done_future": None,
                            "_connected_future": None}, tag="gw")
@@ -355,6 +357,7 @@ def r10_3(ctx):
     others = [m for m in rc.canonical_members() if m.value != soft.value] + [Member(rc, "undefined_0x7f", 0x7F)]
     scenarios = [("connection_lost(error)", "gw", "connection_lost", lambda: {"exc": Obj(TypeRef("builtins.OSError"), {}, tag="exc")}, True),
                  ("connection_lost(None)", "gw", "connection_lost", lambda: {"exc": None}, False),
+                 ("ash.connection_lost(None)", "ash", "connection_lost", lambda: {"exc": None}, False),
                  ("ash.connection_lost(error)", "ash", "connection_lost", lambda: {"exc": Obj(TypeRef("builtins.OSError"), {}, tag="exc")}, True),
                  ("ash.eof_received", "ash", "eof_received", lambda: {}, True),
                  ("retry-exhaustion", "ash", "_enter_failed_state", lambda: {"reset_code": others[0]}, True),
